@@ -1,6 +1,7 @@
 package main
 
 import (
+	"strings"
 	"encoding/hex"
 	"os"
 	"fmt"
@@ -166,6 +167,19 @@ func genC09Subsets(w *caseWriter, st *pkgStats, rng *rand.Rand, special bool) in
 			n++
 			runPkgCase(w, fmt.Sprintf("s-%s-%d", format, mask), pkgDesc{YAML: marshalConfig(&c), Files: extra, Formats: []string{format}}, st, nil)
 		}
+		// one script file serving several slots (install and upgrade doing the same), up to all of them
+		for k := 2; k <= len(own); k += max(1, len(own)-2) {
+			c := baseConfig("shared")
+			c.Contents = files.Contents{{Source: "src/f1", Destination: "/usr/bin/f1"}}
+			for i, s := range own {
+				if i < k {
+					s.set(&c, "scripts/shared.sh")
+				}
+			}
+			extra := []extraFile{{Path: "scripts/shared.sh", Hex: hex.EncodeToString([]byte("#!/bin/sh\necho shared by several slots\n")), Mode: 0o755, MTime: 1650000000}}
+			n++
+			runPkgCase(w, fmt.Sprintf("s-%s-shared-%d", format, k), pkgDesc{YAML: marshalConfig(&c), Files: extra, Formats: []string{format}}, st, nil)
+		}
 	}
 	return n
 }
@@ -195,6 +209,12 @@ func genC03Shapes(w *caseWriter, st *pkgStats) int {
 	c = baseConfig("onlylinks")
 	c.Contents = files.Contents{{Source: "/usr/bin/x", Destination: "/usr/bin/link", Type: files.TypeSymlink}}
 	emit("only-symlink", c)
+	c = baseConfig("dotted")
+	c.Contents = files.Contents{
+		{Source: "src/f1", Destination: "/.config/dotdemo/settings"}, {Source: "src/f2", Destination: "/.well-known/x"},
+		{Source: "src/f1", Destination: "/..data/y"}, {Source: "src/f1", Destination: "/./.hidden/z"}, {Source: "src/f1", Destination: "/opt/.d/.f"},
+	}
+	emit("dot-leading-names", c)
 	for _, dc := range []string{"", "gzip", "xz", "zstd", "none"} {
 		for _, rc := range []string{"", "gzip:9", "xz", "lzma", "zstd"} {
 			if (dc == "") != (rc == "") && dc != "none" {
@@ -236,6 +256,24 @@ func genC04Shapes(w *caseWriter, st *pkgStats) int {
 		{Source: "src/f1", Destination: "/a"}, {Destination: "/b/", Type: files.TypeDir}, {Source: "src/f1", Destination: "/0/1/2/3/4/5/6/7/8/9/deep"},
 	}
 	emit("names-sorting-before-pkginfo", c, nil)
+	// names and targets beyond what a plain ustar header holds, and bytes outside ASCII
+	long := strings.Repeat("n", 140)
+	c = baseConfig("long")
+	c.Contents = files.Contents{
+		{Source: "src/f1", Destination: "/opt/long/" + long + ".txt"},
+		{Source: "src/f1", Destination: "/opt/ünï cödé/fïle.txt"},
+		{Source: "/usr/lib/" + long + "/target", Destination: "/usr/bin/long-link", Type: files.TypeSymlink},
+		{Destination: "/opt/" + strings.Repeat("d", 120) + "/", Type: files.TypeDir},
+		{Source: "src/f2", Destination: "/opt/" + strings.Repeat("p/", 70) + "deep.txt"},
+	}
+	emit("long-and-non-ascii-names", c, nil)
+	// the file system root itself as a destination
+	c = baseConfig("root")
+	c.Contents = files.Contents{{Source: "src/d", Destination: "/", Type: files.TypeTree}}
+	emit("tree-at-root", c, nil)
+	c = baseConfig("rootdir")
+	c.Contents = files.Contents{{Destination: "/", Type: files.TypeDir}, {Source: "src/f1", Destination: "/f1"}}
+	emit("dir-at-root", c, nil)
 	for _, size := range []int{512, 1024, 4096, 511, 513} {
 		c = baseConfig("blocks")
 		c.Contents = files.Contents{{Source: "src/f1", Destination: "/usr/bin/f1"}}
